@@ -140,10 +140,45 @@ class Graph:
                         escaping.add(n.value.id)
             if isinstance(n, ast.Global):
                 escaping.update(n.names)
+        # module-level containers whose elements are instances:  D[k] = Cls(...)  anywhere in the module makes every value read
+        # back from D (D[k], D.get(k), chained assignment) a shared instance
+        m = self.mods[rel]
+        mod_names = {t.id for st in m.tree.body if isinstance(st, (ast.Assign, ast.AnnAssign))
+                     for t in (st.targets if isinstance(st, ast.Assign) else [st.target]) if isinstance(t, ast.Name)}
+        elem_cls = {}
+        for n in ast.walk(m.tree):
+            if isinstance(n, ast.Assign) and isinstance(n.value, ast.Call) and isinstance(n.value.func, ast.Name):
+                r = self.resolve_name(rel, n.value.func.id)
+                if r and r[1] in self.classes:
+                    for t in n.targets:
+                        if isinstance(t, ast.Subscript) and isinstance(t.value, ast.Name) and t.value.id in mod_names:
+                            elem_cls[t.value.id] = r[1]
+            if isinstance(n, ast.Call) and isinstance(n.func, ast.Attribute) and n.func.attr == 'setdefault' and isinstance(n.func.value, ast.Name) \
+                    and n.func.value.id in mod_names and len(n.args) == 2 and isinstance(n.args[1], ast.Call) and isinstance(n.args[1].func, ast.Name):
+                r = self.resolve_name(rel, n.args[1].func.id)
+                if r and r[1] in self.classes:
+                    elem_cls[n.func.value.id] = r[1]
+        for n in ast.walk(fn):
+            if isinstance(n, ast.Assign) and elem_cls:
+                v = n.value
+                src = None
+                if isinstance(v, ast.Subscript) and isinstance(v.value, ast.Name) and v.value.id in elem_cls:
+                    src = v.value.id
+                elif isinstance(v, ast.Call) and isinstance(v.func, ast.Attribute) and v.func.attr in ('get', 'setdefault', 'pop') \
+                        and isinstance(v.func.value, ast.Name) and v.func.value.id in elem_cls:
+                    src = v.func.value.id
+                elif any(isinstance(t, ast.Subscript) and isinstance(t.value, ast.Name) and t.value.id in elem_cls for t in n.targets):
+                    src = [t.value.id for t in n.targets if isinstance(t, ast.Subscript) and isinstance(t.value, ast.Name) and t.value.id in elem_cls][0]
+                if src:
+                    for t in n.targets:
+                        if isinstance(t, ast.Name):
+                            out[t.id] = (elem_cls[src], 'shared')
         for n in ast.walk(fn):
             if isinstance(n, ast.Assign) and len(n.targets) == 1 and isinstance(n.targets[0], ast.Name):
                 v = n.value
                 tn = n.targets[0].id
+                if tn in out and out[tn][1] == 'shared' and tn != 'self':
+                    continue
                 if isinstance(v, ast.Call) and isinstance(v.func, ast.Name):
                     r = self.resolve_name(rel, v.func.id)
                     if r and r[1] in self.classes:
